@@ -19,6 +19,7 @@ class Concretizer:
         self.m = model
         self.names: dict[str, str] = {}
         self.env: dict[str, float] = {}
+        self.degree_mode = False
 
     def ev(self, t):
         return self.m.eval(t, model_completion=True)
@@ -68,6 +69,16 @@ class Concretizer:
         F = lambda f, s=Ref: S.F(f, s)(ref)
         if depth > 4:
             return {"cls": "Constant", "value": 1.0}
+        if self.degree_mode and depth > 0:
+            # witness chosen by the model's (ISPOLY, SDEG) of this sub-term (DESIGN.md appendix C)
+            if not z3.is_true(self.ev(S.ISPOLY(ref))):
+                return {"cls": "UnaryOp", "operand": {"cls": "Variable", "name": "u"}, "op": "sin"}
+            d = max(0, min(4, self.inum(S.SDEG(ref))))
+            if d == 0:
+                return {"cls": "Constant", "value": 2.0}
+            if d == 1:
+                return {"cls": "Variable", "name": "u"}
+            return {"cls": "BinaryOp", "left": {"cls": "Variable", "name": "u"}, "right": {"cls": "Constant", "value": float(d)}, "op": "**"}
         if k == "Constant":
             return {"cls": "Constant", "value": self.fnum(F("value", R))}
         if k == "Variable":
@@ -98,6 +109,12 @@ class Concretizer:
             return {"cls": k, "vector": self.vector(F("vector"), depth + 1, force="VectorVariable"),
                     "power": self.fnum(F("power", R))}
         if k == "VectorUnarySum":
+            return {"cls": k, "vector": self.vector(F("vector"), depth + 1, force="VectorVariable"),
+                    "op": self.opname(ref, VEC_UNARY_OPS)}
+        if k == "ElementwisePower":
+            return {"cls": k, "vector": self.vector(F("vector"), depth + 1, force="VectorVariable"),
+                    "power": self.fnum(F("power", R))}
+        if k == "ElementwiseUnary":
             return {"cls": k, "vector": self.vector(F("vector"), depth + 1, force="VectorVariable"),
                     "op": self.opname(ref, VEC_UNARY_OPS)}
         if k == "MatrixSum":
